@@ -107,6 +107,10 @@ class Normalizer(ast.NodeTransformer):
             if ok:
                 n.keywords = new_kw
                 self.count += 1
+        # N12: x.get(k, None) -> x.get(k)
+        if isinstance(n.func, ast.Attribute) and n.func.attr == "get" and len(n.args) == 2 and not n.keywords and isinstance(n.args[1], ast.Constant) and n.args[1].value is None:
+            n.args = n.args[:1]
+            self.count += 1
         # N9: dict() -> {}, list() -> [], tuple() -> ()
         if isinstance(n.func, ast.Name) and not n.args and not n.keywords and n.func.id in ("dict", "list", "tuple"):
             self.count += 1
@@ -353,6 +357,72 @@ def _inline_function_aliases(tree: ast.Module) -> int:
     return n_total
 
 
+def _merge_list_steps(stmts: List[ast.stmt]) -> int:
+    """N13: `v = [a]` immediately followed by `v.extend(b)` / `v.append(c)` statements  ->  `v = [a, *b, c]`."""
+    n = 0
+    i = 0
+    while i < len(stmts):
+        s = stmts[i]
+        if isinstance(s, ast.Assign) and len(s.targets) == 1 and isinstance(s.targets[0], ast.Name) and isinstance(s.value, ast.List):
+            name = s.targets[0].id
+            j = i + 1
+            while j < len(stmts):
+                t = stmts[j]
+                if (isinstance(t, ast.Expr) and isinstance(t.value, ast.Call) and isinstance(t.value.func, ast.Attribute) and isinstance(t.value.func.value, ast.Name)
+                        and t.value.func.value.id == name and t.value.func.attr in ("extend", "append") and len(t.value.args) == 1 and not t.value.keywords
+                        and not any(isinstance(x, ast.Name) and x.id == name for x in ast.walk(t.value.args[0]))):
+                    a = t.value.args[0]
+                    s.value.elts.append(ast.Starred(value=a, ctx=ast.Load()) if t.value.func.attr == "extend" else a)
+                    del stmts[j]
+                    n += 1
+                    continue
+                break
+        i += 1
+    return n
+
+
+def _expand_local_kwargs(tree: ast.Module) -> int:
+    """N8b: `opts = {"a": x, "b": y}` (bound once, never touched again) … `f(**opts)`  ->  `f(a=x, b=y)`."""
+    import copy as _copy
+
+    n_total = 0
+    for fn in [n for n in ast.walk(tree) if isinstance(n, (ast.FunctionDef, ast.AsyncFunctionDef))]:
+        own = []
+        stack = list(fn.body)
+        while stack:
+            x = stack.pop()
+            if isinstance(x, (ast.FunctionDef, ast.AsyncFunctionDef, ast.ClassDef, ast.Lambda)):
+                continue
+            own.append(x)
+            stack.extend(ast.iter_child_nodes(x))
+        uses: dict = {}
+        for x in own:
+            if isinstance(x, ast.Name):
+                uses.setdefault(x.id, []).append(x)
+        for c in own:
+            if not isinstance(c, ast.Call):
+                continue
+            for i, k in enumerate(list(c.keywords)):
+                if k.arg is None and isinstance(k.value, ast.Name):
+                    nm = k.value.id
+                    us = uses.get(nm, [])
+                    stores = [u for u in us if isinstance(u.ctx, ast.Store)]
+                    loads = [u for u in us if isinstance(u.ctx, ast.Load)]
+                    if len(stores) != 1 or len(loads) != 1 or loads[0] is not k.value:
+                        continue
+                    asg = [a for a in own if isinstance(a, (ast.Assign, ast.AnnAssign)) and (a.targets[0] if isinstance(a, ast.Assign) else a.target) is stores[0]]
+                    if len(asg) != 1 or not isinstance(asg[0].value, ast.Dict):
+                        continue
+                    d = asg[0].value
+                    explicit = {kk.arg for kk in c.keywords if kk.arg}
+                    if not d.keys or not all(isinstance(kk, ast.Constant) and isinstance(kk.value, str) and kk.value.isidentifier() and kk.value not in explicit for kk in d.keys):
+                        continue
+                    new_kw = [ast.keyword(arg=kk.value, value=_copy.deepcopy(vv)) for kk, vv in zip(d.keys, d.values)]
+                    c.keywords[i:i + 1] = new_kw
+                    n_total += 1
+    return n_total
+
+
 def normalize(tree: ast.Module) -> int:
     nz = Normalizer()
     nz.visit(tree)
@@ -362,6 +432,8 @@ def normalize(tree: ast.Module) -> int:
             v = getattr(node, field, None)
             if isinstance(v, list) and v and isinstance(v[0], ast.stmt):
                 nz.count += _merge_dict_steps(v)
+                nz.count += _merge_list_steps(v)
+    nz.count += _expand_local_kwargs(tree)
     if nz.count:
         ast.fix_missing_locations(tree)
     return nz.count
